@@ -267,8 +267,13 @@ Definition print_writes_hook (mode : N) (dirs : list (bstr * list value)) (v : v
   s <- match v' with Some x => value_string x | None => Err e_nilresult end ;;
   Ok (if esc then esc_writes [] s else [s]).
 
-(* evalPrint checks each directive's name and arity before evaluating its arguments *)
-Fixpoint print_dirs_hook (w : node -> M value) (l : list node) : M (list (bstr * list value)) :=
+(* evalPrint's loop, one directive at a time (the shape of [Interp.print_dirs] / [InterpExt.print_dirs_x]): name and
+   arity checked, ITS arguments evaluated, the directive APPLIED to the result so far [v] (None = a nil interface
+   returned by a hooked directive) before the next directive is looked at -- so a failing application is reported
+   where the evaluation of its own arguments left s.node, and the arguments of later directives are never evaluated.
+   The application is checked through [apply_dirs_hook] on the one-element list; the list returned is applied again by
+   [print_writes_hook] (the applications are functions of their arguments: same results), which adds the escaping. *)
+Fixpoint print_dirs_hook (w : node -> M value) (l : list node) (v : option value) : M (list (bstr * list value)) :=
   match l with
   | [] => ret (map (fun nm => (nm, @nil value)) (c_oblig cf))
   | NDirective _ name args :: r =>
@@ -276,7 +281,10 @@ Fixpoint print_dirs_hook (w : node -> M value) (l : list node) : M (list (bstr *
       | None => fail e_nodirective
       | Some de =>
           if negb (check_num_args (de_arities de) (length args)) then fail e_arity
-          else vs <-- eval_list w args ;;; rest <-- print_dirs_hook w r ;;; ret ((name, vs) :: rest)
+          else vs <-- eval_list w args ;;;
+               v1 <-- lift (apply_dirs_hook [(name, vs)] v false) ;;;
+               rest <-- print_dirs_hook w r (fst v1) ;;;
+               ret ((name, vs) :: rest)
       end
   | _ :: _ => fail e_unknown
   end.
@@ -286,7 +294,7 @@ Definition print_hook (w : node -> M value) (arg : node) (dirs : list node) : M 
   match v with
   | VUndef => fail e_undefined
   | _ =>
-      ds <-- print_dirs_hook w dirs ;;;
+      ds <-- print_dirs_hook w dirs (Some v) ;;;
       st <-- get ;;;
       ws <-- lift (print_writes_hook (mode st) ds v) ;;;
       _ <-- write_all ws ;;; ret VUndef
